@@ -357,6 +357,50 @@ func runC18(c *an.Ctx) {
 
 	// ---- R6 status mapping exhaustive
 	handled := map[string]bool{}
+	// the status of a deny is the interruption's; the built-in default replaces it only when the rule gave none
+	// (Status == 0), under no other condition (a private or unregistered code such as 444 is still the rule's)
+	if sf := c.Fn("R6", "http.obtainStatusCodeFromInterruptionOrDefault"); sf != nil {
+		nDef := 0
+		bad := ""
+		an.Instrs(sf, func(in ssa.Instruction) {
+			r, ok := in.(*ssa.Return)
+			if !ok || len(r.Results) != 1 {
+				return
+			}
+			var leaves func(v ssa.Value, from *ssa.BasicBlock, d int)
+			leaves = func(v ssa.Value, from *ssa.BasicBlock, d int) {
+				if phi, ok := v.(*ssa.Phi); ok && d < 4 {
+					for i, e := range phi.Edges {
+						leaves(e, phi.Block().Preds[i], d+1)
+					}
+					return
+				}
+				cst, isC := v.(*ssa.Const)
+				if !isC {
+					return
+				}
+				nDef++
+				f := an.FactsAtBlock(from)
+				if from == r.Block() {
+					f = an.FactsAt(r)
+				}
+				// the edge into the merge point, when `from` branches
+				if len(from.Succs) == 2 {
+					for si, sx := range from.Succs {
+						if sx == r.Block() || r.Block().Preds != nil && containsBlock(r.Block().Preds, from) && sx == r.Block() {
+							f = append(f, an.EdgeFacts(from, si)...)
+						}
+					}
+				}
+				if !f.HasSuffix(".Status", "==", "0") {
+					bad = "the constant " + cst.Value.String() + " is returned under " + shortFacts(f)
+				}
+			}
+			leaves(r.Results[0], r.Block(), 0)
+		})
+		c.Check(bad == "" && nDef >= 1, "R6", "default deny status only when the interruption carries none", sf.Pos(), "403 under it.Status == 0 only",
+			"the middleware answers with its built-in default although the interruption has a status ("+bad+"): the client does not receive the status of the rule that denied")
+	}
 	if sf := c.Fn("R6", "http.obtainStatusCodeFromInterruptionOrDefault"); sf != nil {
 		an.Instrs(sf, func(in ssa.Instruction) {
 			if ifi, ok := in.(*ssa.If); ok {
@@ -450,6 +494,15 @@ func splicesRemainder(v ssa.Value, depth int) bool {
 		case "io.MultiReader":
 			e := an.Expr(x.Call.Args[0])
 			return strings.Contains(e, "RequestBodyReader()") && strings.Contains(e, "req.Body")
+		}
+	}
+	return false
+}
+
+func containsBlock(bs []*ssa.BasicBlock, b *ssa.BasicBlock) bool {
+	for _, x := range bs {
+		if x == b {
+			return true
 		}
 	}
 	return false
